@@ -1,4 +1,4 @@
-import GqlProofs.Parser.CompleteQuery
+import GqlProofs.Parser.CompleteTop
 import GqlProofs.Parser.FwdSchema
 /-
   Completeness of the schema parser, driven by derivations (the type-system counterpart of
@@ -226,5 +226,382 @@ theorem cpl_directiveLocations (n : Nat) (ts o : List Tok) (hok : TsOK ts) (hd :
     · exact h2 m hm) a0 σ0 h) (by decide) n a σ' hs hfol).mono ?_
   rintro xs a' ⟨rfl, hσ'⟩
   exact ⟨rfl, hσ'⟩
+
+/-! ### optional bracketed blocks -/
+
+/-- `( item+ )?` / `{ item+ }?` through `pSome` -/
+theorem cpl_optBlock {α : Type} (item : Sym NT) (pr : α → List Tok) (Fol : Stream → Prop) (FolTok : Tok → Prop)
+    (start stop : Kind) (h1 : start.valued = false) (h2 : stop.valued = false) {cb : Prog α}
+    (hcb : ∀ ts o, TsOK ts → D item ts o → ∀ a σ1, Starts a.σ ts σ1 → Fol σ1 → Fwd cb a (fun y a' => pr y = o ∧ a'.σ = σ1))
+    (hstart : ∀ ts o, TsOK ts → D item ts o → ∃ t rest, ts = t :: rest ∧ t.kind ≠ stop ∧ FolTok t)
+    (hfol : ∀ σ1, (σ1.head.kind = stop ∨ FolTok (Tok.ofToken σ1.head)) → Fol σ1)
+    (n : Nat) (ts o : List Tok) (hok : TsOK ts)
+    (hd : (ts = [] ∧ o = []) ∨ D (.seq (Grammar.kind start) (.seq (.plus item) (Grammar.kind stop))) ts o)
+    (a : AS) (σ' : Stream) (hs : Starts a.σ ts σ') (habs : ts = [] → σ'.head.kind ≠ start) :
+    Fwd (pSome start stop n cb) a
+      (fun ys a' => (if ys.isEmpty then [] else tP start :: ys.flatMap pr ++ [tP stop]) = o ∧ a'.σ = σ') := by
+  rcases hd with ⟨rfl, rfl⟩ | hd
+  · rw [Starts.nil_iff] at hs
+    refine (fwd_bracket_absent start stop n a (by rw [hs]; exact habs rfl)).2.mono ?_
+    rintro ys a' ⟨rfl, hσ⟩
+    exact ⟨rfl, by rw [hσ, hs]⟩
+  · obtain ⟨parts, hne, rfl, rfl, hp⟩ := inv_block hd hok h1 h2
+    have hokp : ∀ p ∈ parts, TsOK p.1 := (hok.tail.left).of_flatMap
+    refine ((fwd_bracketG (·.1) (fun (y : α) (p : List Tok × List Tok) => pr y = p.2) Fol start stop parts
+      (fun p hpm a0 σ1 hst hf => hcb p.1 p.2 (hokp p hpm) (hp p hpm) a0 σ1 hst hf)
+      (fun p hpm => by
+        obtain ⟨t, rest, e, hk, _⟩ := hstart p.1 p.2 (hokp p hpm) (hp p hpm)
+        exact ⟨t, rest, e, hk⟩)
+      (fun σ1 h => hfol σ1 (by
+        rcases h with h | ⟨p, hpm, t, rest, e, ht⟩
+        · exact .inl h
+        · obtain ⟨t', rest', e', _, hf⟩ := hstart p.1 p.2 (hokp p hpm) (hp p hpm)
+          rw [e] at e'
+          rw [ht, (List.cons.inj e').1]
+          exact .inr hf))
+      n a σ' (tP start) (tP stop) rfl rfl (by simpa using hs)).2 hne).mono ?_
+    rintro ys a' ⟨hy, hσ⟩
+    refine ⟨?_, hσ⟩
+    have hyne := all₂_ne hy hne
+    have : ys.isEmpty = false := by cases ys <;> simp_all
+    rw [this, flatMap_forall₂ (P := pr) (g := fun (p : List Tok × List Tok) => p.2) hy]
+    simp
+
+/-- the first token of a described item `Description? Name …` -/
+def DescOrName (t : Tok) : Prop := t.kind = .string ∨ t.kind = .blockString ∨ t.kind = .name
+
+theorem first_described {tD oD : List Tok} (hD : D (.opt (.nt .description)) tD oD) (nm : Name) (r : List Tok) :
+    ∃ t rest, tD ++ tName nm :: r = t :: rest ∧ DescOrName t := by
+  rcases inv_optDescription hD with ⟨rfl, _⟩ | ⟨t, rfl, hk, _⟩
+  · exact ⟨_, _, rfl, .inr (.inr rfl)⟩
+  · exact ⟨t, _, rfl, by rcases hk with h | h <;> simp [DescOrName, h]⟩
+
+theorem folArg_of_descOrName {σ1 : Stream} (h : σ1.head.kind = .parenR ∨ σ1.head.kind = .braceR ∨ DescOrName (Tok.ofToken σ1.head)) :
+    FolArg σ1 := by
+  have e : (Tok.ofToken σ1.head).kind = σ1.head.kind := rfl
+  rcases h with h | h | h | h | h
+  · simp [FolArg, h]
+  · simp [FolArg, h]
+  · rw [e] at h; simp [FolArg, h]
+  · rw [e] at h; simp [FolArg, h]
+  · rw [e] at h; simp [FolArg, h]
+
+theorem noDesc_of_name {σ σ' : Stream} {nm : Name} {r : List Tok} (h : Starts σ (tName nm :: r) σ') : NoDesc σ := by
+  have := h.head_kind
+  simp only [tName] at this
+  exact ⟨by rw [this]; decide, by rw [this]; decide⟩
+
+/-! ### input value definitions -/
+
+theorem inv_inputValue {ts o : List Tok} (h : D (.nt .inputValueDefinition) ts o) (hok : TsOK ts) :
+    ∃ tD oD nm tt ot tdv odv tds ods, ts = tD ++ tName nm :: tP .colon :: (tt ++ (tdv ++ tds)) ∧
+      o = oD ++ tName nm :: tP .colon :: (ot ++ (odv ++ ods)) ∧ D (.opt (.nt .description)) tD oD ∧ D (.nt .typ) tt ot ∧
+      D (.opt (.nt .defaultValue)) tdv odv ∧ D (.opt (.nt (.directives true))) tds ods := by
+  obtain ⟨t1, t2, o1, o2, rfl, rfl, d1, d2⟩ := h.nt_inv.seq_inv'
+  obtain ⟨t3, t4, o3, o4, rfl, rfl, d3, d4⟩ := d2.seq_inv'
+  obtain ⟨t5, t6, o5, o6, rfl, rfl, d5, d6⟩ := d4.seq_inv'
+  obtain ⟨t7, t8, o7, o8, rfl, rfl, d7, d8⟩ := d6.seq_inv'
+  obtain ⟨t9, t10, o9, o10, rfl, rfl, d9, d10⟩ := d8.seq_inv'
+  obtain ⟨nm, rfl, rfl⟩ := name_inv d3
+  obtain ⟨rfl, rfl⟩ := punct_inv d5 hok.right.right.left rfl
+  exact ⟨t1, o1, nm, t7, o7, t9, o9, t10, o10, by simp, by simp, d1, d7, d9, d10⟩
+
+/-- the common tail `: Type DefaultValue? Directives?` -/
+theorem cpl_inputTail (n : Nat) (tt ot tdv odv tds ods : List Tok) (hok : TsOK (tt ++ (tdv ++ tds))) (dt : D (.nt .typ) tt ot)
+    (ddv : D (.opt (.nt .defaultValue)) tdv odv) (dds : D (.opt (.nt (.directives true))) tds ods) (a : AS) (σ' : Stream)
+    (hs : Starts a.σ (tP .colon :: (tt ++ (tdv ++ tds))) σ') (hfol : FolArg σ')
+    {β : Type} (mk : GType → Option Value → List Directive → β) (R : β → Prop)
+    (hR : ∀ ty dv ds, printType ty = ot → printDefault dv = odv → printDirectives ds = ods → R (mk ty dv ds)) :
+    Fwd (do
+      let _ ← expect .colon
+      let ty ← parseTypeReference n
+      let dv ← do
+        if ← skip .equals then
+          let v ← parseValueLiteral n true
+          pure (Option.some v)
+        else pure none
+      let dirs ← parseDirectives n true
+      pure (mk ty dv dirs)) a (fun y a' => R y ∧ a'.σ = σ') := by
+  obtain ⟨f1, f2, f3, f4⟩ := hfol
+  have hokt : TsOK tt := hok.left
+  have hokdv : TsOK tdv := hok.right.left
+  have hokds : TsOK tds := hok.right.right
+  obtain ⟨σ2, h2, hs⟩ := hs.cons_single
+  rw [Starts.append_iff] at hs
+  obtain ⟨σ3, h3, hs⟩ := hs
+  rw [Starts.append_iff] at hs
+  obtain ⟨σ4, h4, h5⟩ := hs
+  have k5 := h5.firstKind
+  have k5' := firstKind_optDirectives dds hokds σ'.head.kind
+  have hσ4k : σ4.head.kind ≠ .bang ∧ σ4.head.kind ≠ .equals := by
+    rw [k5]; rcases k5' with h | h <;> rw [h]
+    · exact ⟨f1, f2⟩
+    · exact ⟨by decide, by decide⟩
+  refine Fwd.bind (fwd_punct .colon h2) ?_
+  rintro _ b3 hσ3
+  have hdirs : ∀ (b : AS), b.σ = σ4 → Fwd (parseDirectives n true) b (fun ds a' => printDirectives ds = ods ∧ a'.σ = σ') :=
+    fun b hb => cpl_directives true n tds ods hokds dds b σ' (by rw [hb]; exact h5) f3 f4
+  rcases inv_optDefault ddv hokdv with ⟨rfl, rfl⟩ | ⟨tv, ov, rfl, rfl, dv⟩
+  · rw [Starts.nil_iff] at h4
+    subst h4
+    refine Fwd.bind (cpl_type n tt ot hokt dt b3 σ3 (by rw [hσ3]; exact h3) hσ4k.1) ?_
+    rintro ty' b4 ⟨hty, hσ4⟩
+    refine Fwd.bind (fwd_skipP_no .equals (by rw [hσ4]; exact hσ4k.2)) ?_
+    rintro b b5 ⟨rfl, hσ5⟩
+    refine Fwd.ite_neg (by simp) (Fwd.bind (Fwd.pure none _) ?_)
+    rintro dv b6 ⟨rfl, rfl⟩
+    refine Fwd.bind (hdirs _ (by rw [hσ5, hσ4])) ?_
+    rintro ds' b7 ⟨hds, hσ⟩
+    refine (Fwd.pure _ _).mono ?_
+    rintro y b8 ⟨rfl, rfl⟩
+    exact ⟨hR _ _ _ hty rfl hds, hσ⟩
+  · obtain ⟨σe, he, hv⟩ := h4.cons_single
+    refine Fwd.bind (cpl_type n tt ot hokt dt b3 σ3 (by rw [hσ3]; exact h3) (by rw [h4.head_kind]; simp [tP])) ?_
+    rintro ty' b4 ⟨hty, hσ4⟩
+    refine Fwd.bind (fwd_skipP_yes .equals (by rw [hσ4]; exact he)) ?_
+    rintro b b5 ⟨rfl, hσ5⟩
+    refine Fwd.ite_pos rfl (Fwd.bind (cpl_value true n tv ov hokdv.tail dv b5 σ4 (by rw [hσ5]; exact hv)) ?_)
+    rintro v' b6 ⟨hv', hσ6⟩
+    refine Fwd.bind (Fwd.pure (Option.some v') _) ?_
+    rintro dv' b7 ⟨rfl, rfl⟩
+    refine Fwd.bind (hdirs _ hσ6) ?_
+    rintro ds' b8 ⟨hds, hσ⟩
+    refine (Fwd.pure _ _).mono ?_
+    rintro y b9 ⟨rfl, rfl⟩
+    exact ⟨hR _ _ _ hty (by simp [printDefault, hv']) hds, hσ⟩
+
+theorem cpl_argDef (n : Nat) (ts o : List Tok) (hok : TsOK ts) (hd : D (.nt .inputValueDefinition) ts o) (a : AS) (σ' : Stream)
+    (hs : Starts a.σ ts σ') (hfol : FolArg σ') :
+    Fwd (parseArgumentDef n) a (fun y a' => printArgDef y = o ∧ a'.σ = σ') := by
+  obtain ⟨tD, oD, nm, tt, ot, tdv, odv, tds, ods, rfl, rfl, dD, dt, ddv, dds⟩ := inv_inputValue hd hok
+  rw [Starts.append_iff] at hs
+  obtain ⟨σ1, h1, hs⟩ := hs
+  obtain ⟨σ2, h2, h3⟩ := hs.cons_single
+  unfold parseArgumentDef
+  refine Fwd.bind (fwd_peekPos _) ?_
+  rintro pos b1 rfl
+  refine Fwd.bind (cpl_description tD oD dD _ σ1 (by simpa using h1) (fun _ => noDesc_of_name hs)) ?_
+  rintro desc b2 ⟨hdesc, hσ2⟩
+  refine Fwd.bind (fwd_peek b2) ?_
+  rintro _ b3 ⟨_, rfl⟩
+  refine Fwd.bind (fwd_parseName nm (by simpa [hσ2] using h2)) ?_
+  rintro nm' b4 ⟨rfl, hσ4⟩
+  exact cpl_inputTail n tt ot tdv odv tds ods hok.right.tail.tail dt ddv dds b4 σ' (by rw [hσ4]; exact h3) hfol
+    (fun ty dv dirs => ({ desc := desc, name := nm', default := dv, type := ty, dirs := dirs, pos := pos } : ArgDef))
+    (fun y => printArgDef y = oD ++ tName nm' :: tP .colon :: (ot ++ (odv ++ ods)))
+    (fun ty dv ds e1 e2 e3 => by simp [printArgDef, hdesc, e1, e2, e3])
+
+theorem cpl_inputField (n : Nat) (ts o : List Tok) (hok : TsOK ts) (hd : D (.nt .inputValueDefinition) ts o) (a : AS) (σ' : Stream)
+    (hs : Starts a.σ ts σ') (hfol : FolArg σ') :
+    Fwd (parseInputValueDef n) a (fun y a' => printInputField y = o ∧ a'.σ = σ') := by
+  obtain ⟨tD, oD, nm, tt, ot, tdv, odv, tds, ods, rfl, rfl, dD, dt, ddv, dds⟩ := inv_inputValue hd hok
+  rw [Starts.append_iff] at hs
+  obtain ⟨σ1, h1, hs⟩ := hs
+  obtain ⟨σ2, h2, h3⟩ := hs.cons_single
+  unfold parseInputValueDef
+  refine Fwd.bind (fwd_peekPos _) ?_
+  rintro pos b1 rfl
+  refine Fwd.bind (cpl_description tD oD dD _ σ1 (by simpa using h1) (fun _ => noDesc_of_name hs)) ?_
+  rintro desc b2 ⟨hdesc, hσ2⟩
+  refine Fwd.bind (fwd_peek b2) ?_
+  rintro _ b3 ⟨_, rfl⟩
+  refine Fwd.bind (fwd_parseName nm (by simpa [hσ2] using h2)) ?_
+  rintro nm' b4 ⟨rfl, hσ4⟩
+  exact cpl_inputTail n tt ot tdv odv tds ods hok.right.tail.tail dt ddv dds b4 σ' (by rw [hσ4]; exact h3) hfol
+    (fun ty dv dirs => ({ desc := desc, name := nm', args := [], default := dv, type := ty, dirs := dirs, pos := pos } : FieldDef))
+    (fun y => printInputField y = oD ++ tName nm' :: tP .colon :: (ot ++ (odv ++ ods)))
+    (fun ty dv ds e1 e2 e3 => by simp [printInputField, hdesc, e1, e2, e3])
+
+theorem first_inputValue (ts o : List Tok) (hok : TsOK ts) (hd : D (.nt .inputValueDefinition) ts o) (stop : Kind)
+    (hstop : stop = .parenR ∨ stop = .braceR) : ∃ t rest, ts = t :: rest ∧ t.kind ≠ stop ∧ DescOrName t := by
+  obtain ⟨tD, oD, nm, tt, ot, tdv, odv, tds, ods, rfl, _, dD, _⟩ := inv_inputValue hd hok
+  obtain ⟨t, rest, e, hk⟩ := first_described dD nm (tP .colon :: (tt ++ (tdv ++ tds)))
+  refine ⟨t, rest, e, ?_, hk⟩
+  rcases hk with h | h | h <;> rcases hstop with rfl | rfl <;> simp [h]
+
+/-- `ArgumentsDefinition?` -/
+theorem cpl_argDefs (n : Nat) (ts o : List Tok) (hok : TsOK ts) (hd : D (.opt (.nt .argumentsDefinition)) ts o) (a : AS)
+    (σ' : Stream) (hs : Starts a.σ ts σ') (habs : ts = [] → σ'.head.kind ≠ .parenL) :
+    Fwd (parseArgumentDefs n) a (fun ys a' => printArgDefs ys = o ∧ a'.σ = σ') := by
+  unfold parseArgumentDefs
+  exact cpl_optBlock (.nt .inputValueDefinition) printArgDef FolArg DescOrName .parenL .parenR rfl rfl
+    (fun ts o hok hd a σ1 hs hf => cpl_argDef n ts o hok hd a σ1 hs hf)
+    (fun ts o hok hd => first_inputValue ts o hok hd .parenR (.inl rfl))
+    (fun σ1 h => folArg_of_descOrName (by rcases h with h | h; exact .inl h; exact .inr (.inr h)))
+    n ts o hok (hd.opt_inv.imp id fun h => h.nt_inv) a σ' hs habs
+
+/-- `InputFieldsDefinition?` -/
+theorem cpl_inputFields (n : Nat) (ts o : List Tok) (hok : TsOK ts) (hd : D (.opt (.nt .inputFieldsDefinition)) ts o) (a : AS)
+    (σ' : Stream) (hs : Starts a.σ ts σ') (habs : ts = [] → σ'.head.kind ≠ .braceL) :
+    Fwd (parseInputFieldsDefinition n) a (fun ys a' => printBlock printInputField ys = o ∧ a'.σ = σ') := by
+  unfold parseInputFieldsDefinition
+  exact cpl_optBlock (.nt .inputValueDefinition) printInputField FolArg DescOrName .braceL .braceR rfl rfl
+    (fun ts o hok hd a σ1 hs hf => cpl_inputField n ts o hok hd a σ1 hs hf)
+    (fun ts o hok hd => first_inputValue ts o hok hd .braceR (.inr rfl))
+    (fun σ1 h => folArg_of_descOrName (by rcases h with h | h; exact .inr (.inl h); exact .inr (.inr h)))
+    n ts o hok (hd.opt_inv.imp id fun h => h.nt_inv) a σ' hs habs
+
+/-! ### field definitions -/
+
+theorem inv_fieldDef {ts o : List Tok} (h : D (.nt .fieldDefinition) ts o) (hok : TsOK ts) :
+    ∃ tD oD nm ta oa tt ot tds ods, ts = tD ++ tName nm :: (ta ++ tP .colon :: (tt ++ tds)) ∧
+      o = oD ++ tName nm :: (oa ++ tP .colon :: (ot ++ ods)) ∧ D (.opt (.nt .description)) tD oD ∧
+      D (.opt (.nt .argumentsDefinition)) ta oa ∧ D (.nt .typ) tt ot ∧ D (.opt (.nt (.directives true))) tds ods := by
+  obtain ⟨t1, t2, o1, o2, rfl, rfl, d1, d2⟩ := h.nt_inv.seq_inv'
+  obtain ⟨t3, t4, o3, o4, rfl, rfl, d3, d4⟩ := d2.seq_inv'
+  obtain ⟨t5, t6, o5, o6, rfl, rfl, d5, d6⟩ := d4.seq_inv'
+  obtain ⟨t7, t8, o7, o8, rfl, rfl, d7, d8⟩ := d6.seq_inv'
+  obtain ⟨t9, t10, o9, o10, rfl, rfl, d9, d10⟩ := d8.seq_inv'
+  obtain ⟨nm, rfl, rfl⟩ := name_inv d3
+  obtain ⟨rfl, rfl⟩ := punct_inv d7 hok.right.right.right.left rfl
+  exact ⟨t1, o1, nm, t5, o5, t9, o9, t10, o10, by simp, by simp, d1, d5, d9, d10⟩
+
+theorem cpl_fieldDef (n : Nat) (ts o : List Tok) (hok : TsOK ts) (hd : D (.nt .fieldDefinition) ts o) (a : AS) (σ' : Stream)
+    (hs : Starts a.σ ts σ') (hfol : FolArg σ') :
+    Fwd (parseFieldDefinition n) a (fun y a' => printFieldDef y = o ∧ a'.σ = σ') := by
+  obtain ⟨f1, f2, f3, f4⟩ := hfol
+  obtain ⟨tD, oD, nm, ta, oa, tt, ot, tds, ods, rfl, rfl, dD, da, dt, dds⟩ := inv_fieldDef hd hok
+  have hokr := hok.right.tail
+  rw [Starts.append_iff] at hs
+  obtain ⟨σ1, h1, hs⟩ := hs
+  obtain ⟨σ2, h2, hs3⟩ := hs.cons_single
+  rw [Starts.append_iff] at hs3
+  obtain ⟨σ3, h3, hs4⟩ := hs3
+  obtain ⟨σ4, h4, hs5⟩ := hs4.cons_single
+  rw [Starts.append_iff] at hs5
+  obtain ⟨σ5, h5, h6⟩ := hs5
+  have k6 := h6.firstKind
+  have k6' := firstKind_optDirectives dds hokr.right.tail.right σ'.head.kind
+  unfold parseFieldDefinition
+  refine Fwd.bind (fwd_peekPos _) ?_
+  rintro pos b1 rfl
+  refine Fwd.bind (cpl_description tD oD dD _ σ1 (by simpa using h1) (fun _ => noDesc_of_name hs)) ?_
+  rintro desc b2 ⟨hdesc, hσ2⟩
+  refine Fwd.bind (fwd_peek b2) ?_
+  rintro _ b3 ⟨_, rfl⟩
+  refine Fwd.bind (fwd_parseName nm (by simpa [hσ2] using h2)) ?_
+  rintro nm' b4 ⟨rfl, hσ4⟩
+  refine Fwd.bind (cpl_argDefs n ta oa hokr.left da b4 σ3 (by rw [hσ4]; exact h3) (fun _ => by
+    rw [hs4.head_kind]; simp [tP])) ?_
+  rintro as' b5 ⟨has, hσ5⟩
+  refine Fwd.bind (fwd_punct .colon (by rw [hσ5]; exact h4)) ?_
+  rintro _ b6 hσ6
+  refine Fwd.bind (cpl_type n tt ot hokr.right.tail.left dt b6 σ5 (by rw [hσ6]; exact h5) (by
+    rw [k6]; rcases k6' with h | h <;> rw [h]
+    · exact f1
+    · decide)) ?_
+  rintro ty' b7 ⟨hty, hσ7⟩
+  refine Fwd.bind (cpl_directives true n tds ods hokr.right.tail.right dds b7 σ' (by rw [hσ7]; exact h6) f3 f4) ?_
+  rintro ds' b8 ⟨hds, hσ⟩
+  refine (Fwd.pure _ _).mono ?_
+  rintro y b9 ⟨rfl, rfl⟩
+  exact ⟨by simp [printFieldDef, hdesc, has, hty, hds], hσ⟩
+
+/-- `FieldsDefinition?` -/
+theorem cpl_fieldDefs (n : Nat) (ts o : List Tok) (hok : TsOK ts) (hd : D (.opt (.nt .fieldsDefinition)) ts o) (a : AS)
+    (σ' : Stream) (hs : Starts a.σ ts σ') (habs : ts = [] → σ'.head.kind ≠ .braceL) :
+    Fwd (parseFieldsDefinition n) a (fun ys a' => printBlock printFieldDef ys = o ∧ a'.σ = σ') := by
+  unfold parseFieldsDefinition
+  exact cpl_optBlock (.nt .fieldDefinition) printFieldDef FolArg DescOrName .braceL .braceR rfl rfl
+    (fun ts o hok hd a σ1 hs hf => cpl_fieldDef n ts o hok hd a σ1 hs hf)
+    (fun ts o hok hd => by
+      obtain ⟨tD, oD, nm, ta, oa, tt, ot, tds, ods, rfl, _, dD, _⟩ := inv_fieldDef hd hok
+      obtain ⟨t, rest, e, hk⟩ := first_described dD nm (ta ++ tP .colon :: (tt ++ tds))
+      exact ⟨t, rest, e, by rcases hk with h | h | h <;> simp [h], hk⟩)
+    (fun σ1 h => folArg_of_descOrName (by rcases h with h | h; exact .inr (.inl h); exact .inr (.inr h)))
+    n ts o hok (hd.opt_inv.imp id fun h => h.nt_inv) a σ' hs habs
+
+/-! ### enum values -/
+
+theorem inv_enumVal {ts o : List Tok} (h : D (.nt .enumValueDefinition) ts o) :
+    ∃ tD oD nm tds ods, ts = tD ++ tName nm :: tds ∧ o = oD ++ tName nm :: ods ∧ D (.opt (.nt .description)) tD oD ∧
+      D (.opt (.nt (.directives true))) tds ods := by
+  obtain ⟨t1, t2, o1, o2, rfl, rfl, d1, d2⟩ := h.nt_inv.seq_inv'
+  obtain ⟨t3, t4, o3, o4, rfl, rfl, d3, d4⟩ := d2.seq_inv'
+  obtain ⟨t, rfl, rfl, hp⟩ := d3.nt_inv.tok_inv
+  simp only [Bool.and_eq_true, beq_iff_eq] at hp
+  have : t = tName t.value := by cases t; simp_all [tName]
+  rw [this]
+  exact ⟨t1, o1, t.value, t4, o4, by simp, by simp, d1, d4⟩
+
+theorem cpl_enumVal (n : Nat) (ts o : List Tok) (hok : TsOK ts) (hd : D (.nt .enumValueDefinition) ts o) (a : AS) (σ' : Stream)
+    (hs : Starts a.σ ts σ') (hfol : FolArg σ') :
+    Fwd (parseEnumValueDefinition n) a (fun y a' => printEnumVal y = o ∧ a'.σ = σ') := by
+  obtain ⟨f1, f2, f3, f4⟩ := hfol
+  obtain ⟨tD, oD, nm, tds, ods, rfl, rfl, dD, dds⟩ := inv_enumVal hd
+  rw [Starts.append_iff] at hs
+  obtain ⟨σ1, h1, hs⟩ := hs
+  obtain ⟨σ2, h2, h3⟩ := hs.cons_single
+  unfold parseEnumValueDefinition
+  refine Fwd.bind (fwd_peekPos _) ?_
+  rintro pos b1 rfl
+  refine Fwd.bind (cpl_description tD oD dD _ σ1 (by simpa using h1) (fun _ => noDesc_of_name hs)) ?_
+  rintro desc b2 ⟨hdesc, hσ2⟩
+  refine Fwd.bind (fwd_peek b2) ?_
+  rintro _ b3 ⟨_, rfl⟩
+  refine Fwd.bind (fwd_parseName nm (by simpa [hσ2] using h2)) ?_
+  rintro nm' b4 ⟨rfl, hσ4⟩
+  refine Fwd.bind (cpl_directives true n tds ods hok.right.tail dds b4 σ' (by rw [hσ4]; exact h3) f3 f4) ?_
+  rintro ds' b5 ⟨hds, hσ⟩
+  refine (Fwd.pure _ _).mono ?_
+  rintro y b6 ⟨rfl, rfl⟩
+  exact ⟨by simp [printEnumVal, hdesc, hds], hσ⟩
+
+/-- `EnumValuesDefinition?` -/
+theorem cpl_enumVals (n : Nat) (ts o : List Tok) (hok : TsOK ts) (hd : D (.opt (.nt .enumValuesDefinition)) ts o) (a : AS)
+    (σ' : Stream) (hs : Starts a.σ ts σ') (habs : ts = [] → σ'.head.kind ≠ .braceL) :
+    Fwd (parseEnumValuesDefinition n) a (fun ys a' => printBlock printEnumVal ys = o ∧ a'.σ = σ') := by
+  unfold parseEnumValuesDefinition
+  exact cpl_optBlock (.nt .enumValueDefinition) printEnumVal FolArg DescOrName .braceL .braceR rfl rfl
+    (fun ts o hok hd a σ1 hs hf => cpl_enumVal n ts o hok hd a σ1 hs hf)
+    (fun ts o hok hd => by
+      obtain ⟨tD, oD, nm, tds, ods, rfl, _, dD, _⟩ := inv_enumVal hd
+      obtain ⟨t, rest, e, hk⟩ := first_described dD nm tds
+      exact ⟨t, rest, e, by rcases hk with h | h | h <;> simp [h], hk⟩)
+    (fun σ1 h => folArg_of_descOrName (by rcases h with h | h; exact .inr (.inl h); exact .inr (.inr h)))
+    n ts o hok (hd.opt_inv.imp id fun h => h.nt_inv) a σ' hs habs
+
+/-! ### root operation types -/
+
+theorem inv_opTypeDef {ts o : List Tok} (h : D (.nt .rootOperationTypeDefinition) ts o) (hok : TsOK ts) :
+    ∃ op ty, (op = str "query" ∨ op = str "mutation" ∨ op = str "subscription") ∧ ts = [tName op, tP .colon, tName ty] ∧
+      o = [tName op, tP .colon, tName ty] := by
+  obtain ⟨t1, t2, o1, o2, rfl, rfl, d1, d2⟩ := h.nt_inv.seq_inv'
+  obtain ⟨t3, t4, o3, o4, rfl, rfl, d3, d4⟩ := d2.seq_inv'
+  obtain ⟨op, hop, rfl, rfl⟩ := inv_operationType d1
+  obtain ⟨rfl, rfl⟩ := punct_inv d3 hok.right.left rfl
+  obtain ⟨ty, rfl, rfl⟩ := inv_namedType d4
+  exact ⟨op, ty, hop, rfl, rfl⟩
+
+theorem cpl_opTypeDef (ts o : List Tok) (hok : TsOK ts) (hd : D (.nt .rootOperationTypeDefinition) ts o) (a : AS) (σ' : Stream)
+    (hs : Starts a.σ ts σ') : Fwd parseOperationTypeDefinition a (fun y a' => printOpType y = o ∧ a'.σ = σ') := by
+  obtain ⟨op, ty, hop, rfl, rfl⟩ := inv_opTypeDef hd hok
+  obtain ⟨σ1, h1, hs⟩ := hs.cons_single
+  obtain ⟨σ2, h2, h3⟩ := hs.cons_single
+  obtain ⟨u, hσu, hu⟩ := h1.single
+  unfold parseOperationTypeDefinition
+  refine Fwd.bind (fwd_peekPos _) ?_
+  rintro pos b1 rfl
+  refine Fwd.bind (fwd_parseOperationType (a := { pk := true, σ := a.σ, cnt := a.cnt }) rfl hσu hu hop) ?_
+  rintro op' b2 ⟨rfl, hσ2⟩
+  refine Fwd.bind (fwd_punct .colon (by rw [hσ2]; exact h2)) ?_
+  rintro _ b3 hσ3
+  refine Fwd.bind (fwd_parseName ty (by rw [hσ3]; exact h3)) ?_
+  rintro ty' b4 ⟨rfl, hσ⟩
+  refine (Fwd.pure _ _).mono ?_
+  rintro y b5 ⟨rfl, rfl⟩
+  exact ⟨rfl, hσ⟩
+
+/-- `{ RootOperationTypeDefinition+ }?` -/
+theorem cpl_opTypes (n : Nat) (ts o : List Tok) (hok : TsOK ts)
+    (hd : (ts = [] ∧ o = []) ∨ D (.seq (Grammar.kind .braceL) (.seq (.plus (.nt .rootOperationTypeDefinition)) (Grammar.kind .braceR))) ts o)
+    (a : AS) (σ' : Stream) (hs : Starts a.σ ts σ') (habs : ts = [] → σ'.head.kind ≠ .braceL) :
+    Fwd (pSome .braceL .braceR n parseOperationTypeDefinition) a (fun ys a' => printBlock printOpType ys = o ∧ a'.σ = σ') :=
+  cpl_optBlock (.nt .rootOperationTypeDefinition) printOpType (fun _ => True) (fun _ => True) .braceL .braceR rfl rfl
+    (fun ts o hok hd a σ1 hs _ => cpl_opTypeDef ts o hok hd a σ1 hs)
+    (fun ts o hok hd => by
+      obtain ⟨op, ty, _, rfl, _⟩ := inv_opTypeDef hd hok
+      exact ⟨_, _, rfl, by simp [tName], trivial⟩)
+    (fun _ _ => trivial) n ts o hok hd a σ' hs habs
 
 end Gql.Parser
